@@ -71,7 +71,7 @@ class _Raising:
 
     def latex_to_text(self, s):
         if "BOOM" in s:
-            raise ValueError("cannot decode")
+            raise [ValueError, RuntimeError, KeyError, RecursionError][len(s) % 4]("cannot decode")
         return s.lower()
 
 
@@ -121,6 +121,9 @@ def corpus():
         {"texts": ["BOOM"], "opt": 8, "inplace": True, "then": None},
         {"texts": ["see https://a.b/c&d now"], "opt": 0, "inplace": True, "then": 4},           # K4
         {"texts": ["a"], "opt": 0, "inplace": True, "then": 4, "keytext": True},
+        {"texts": ["{" * 400 + "x" + "}" * 400, "fine"], "opt": 4, "inplace": True, "then": None},   # converter hits the recursion limit
+        {"texts": ["{" * 400 + "x" + "}" * 400, "fine"], "opt": 5, "inplace": False, "then": None},
+        {"texts": ["M\u00fcller & S\u00f6hne {GmbH} 50% ~x\\y"], "opt": 2, "inplace": True, "then": 4},
     ]
 
 
@@ -207,6 +210,19 @@ def oracle(case):
     src = lib0.blocks
     if len(after) != len(src):
         return "block count changed"
+    if len(st) == 1:
+        # containment, computed independently: a block is an error block iff one of its texts fails to convert
+        mw = _mw(st[0][0], st[0][1], True)
+        for a, b in zip(src, after):
+            if isinstance(a, (M.Entry, M.String)):
+                class _L:
+                    blocks = [a]
+                errs = [mw._transform_python_value_string(t)[1] for t in _strings_of(_L)]
+                want = any(e != "" for e in errs)
+                if want != isinstance(b, M.MiddlewareErrorBlock):
+                    return "conversion %s but the block is %s" % ("failed" if want else "succeeded", type(b).__name__)
+                if want and b.ignore_error_block is None:
+                    return "error block does not retain the original block"
     for a, b in zip(src, after):
         inner = b.ignore_error_block if isinstance(b, M.MiddlewareErrorBlock) else b
         if isinstance(a, M.Entry) and isinstance(inner, M.Entry):
@@ -229,11 +245,36 @@ def oracle(case):
             if enc(B.enc_block(a, prev=False)) != enc(B.enc_block(b, prev=False)):
                 return "a block outside the scope changed: %s" % type(a).__name__
     # round trip
-    if len(st) == 2 and st[0] == ("enc", {}) and st[1] == ("dec", {}):
+    if len(st) == 2 and st[0][0] == "enc" and "encoder" not in st[0][1] and st[1] == ("dec", {}):
         for t, u in zip(_strings_of(lib0), _strings_of_inner(after)):
-            if t != u:
+            if t != u and not (st[0][1].get("keep_math") is False and "$" in t):
                 return "round trip: %r -> %r" % (t, u)
     return None
+
+
+def extra_obligations(tier):
+    """The assumption of roundtrip_entry/roundtrip_string - dec(enc(t)) = t without error for texts over
+    the property's alphabet - is about the third-party converter: sampled here on EVERY run (seeded), for
+    the default options and the keep_math / enclose_urls variants; failures explained by K4 are skipped."""
+    import random
+    rng = random.Random(20260930)
+    n = 600 if tier == "quick" else 6000
+    dec = _mw("dec", {}, True)
+    res = []
+    for kw in ({}, {"enclose_urls": False}, {"keep_math": False}, {"keep_math": False, "enclose_urls": False}):
+        encm = _mw("enc", kw, True)
+        bad = None
+        for i in range(n):
+            t = gen_text(rng)
+            if kw.get("keep_math") is False and "$" in t:
+                continue
+            a, ea = encm._transform_python_value_string(t)
+            b, eb = dec._transform_python_value_string(a)
+            if (b != t or ea or eb) and not url_k4(t):
+                bad = "%r -> %r -> %r %s %s" % (t, a, b, ea, eb)
+                break
+        res.append(("round-trip assumption sampled, encoder options %r" % (kw,), bad is None, bad or "%d texts" % n))
+    return res
 
 
 def _strings_of_inner(blocks):
